@@ -589,6 +589,22 @@ func init() {
 	reg("bytes.Index", func(m *Machine, fr *frame, a []Value) Value {
 		return m.indexSub(sliceBytes(a[0].([]Value)), sliceBytes(a[1].([]Value)))
 	})
+	indexRune := func(bs func(m *Machine, v Value) []*term.T) intrinsic {
+		return func(m *Machine, fr *frame, a []Value) Value {
+			s := mkStr(bs(m, a[0]))
+			r := a[1].(*term.T)
+			for pos := 0; pos < slen(s); {
+				rr, size := m.decodeRune(s, pos)
+				if m.condBool(m.tb.Eq(rr, r), "indexrune") {
+					return m.tb.BV(64, uint64(pos))
+				}
+				pos += size
+			}
+			return m.tb.BV(64, ^uint64(0))
+		}
+	}
+	reg("strings.IndexRune", indexRune(func(m *Machine, v Value) []*term.T { return m.sbytes(v) }))
+	reg("bytes.IndexRune", indexRune(func(m *Machine, v Value) []*term.T { return sliceBytes(v.([]Value)) }))
 	reg("internal/bytealg.IndexString", intrinsics["strings.Index"])
 	reg("internal/bytealg.Index", intrinsics["bytes.Index"])
 	reg("bytes.Equal", func(m *Machine, fr *frame, a []Value) Value {
@@ -620,6 +636,7 @@ func init() {
 		return out
 	})
 	reg("strings.Clone", func(m *Machine, fr *frame, a []Value) Value { return a[0] })
+	reg("internal/stringslite.Clone", func(m *Machine, fr *frame, a []Value) Value { return a[0] })
 	reg("internal/abi.NoEscape", func(m *Machine, fr *frame, a []Value) Value { return a[0] })
 	reg("internal/abi.Escape", func(m *Machine, fr *frame, a []Value) Value { return a[0] })
 
